@@ -369,28 +369,54 @@ def check_extend_cols(facts, rep):
         return re.sub(r'&mut _\d+', 'IT', re.sub(r'#(?:i\d+:)?\d+\.\d+', '', show(t, -1000))).replace('&', '').replace('*', '')
     n = 0
     probs = []
+    unknown = []
+
+    def forces_zero(conds):
+        """do the path conditions on ncols(b) leave 0 as its only value?"""
+        vals = set(range(0, 4))
+        seen = False
+        for c, truth in conds:
+            m = re.match(r'(Eq|Ne|Gt|Ge|Lt|Le)\(ncols\(arg2\), (\d+)\)$', c)
+            m2 = re.match(r'(Eq|Ne|Gt|Ge|Lt|Le)\((\d+), ncols\(arg2\)\)$', c)
+            if m or m2:
+                seen = True
+                op, k = (m.group(1), int(m.group(2))) if m else ({'Gt': 'Lt', 'Lt': 'Gt', 'Ge': 'Le', 'Le': 'Ge'}.get(m2.group(1), m2.group(1)), int(m2.group(2)))
+                f = {'Eq': lambda x: x == k, 'Ne': lambda x: x != k, 'Gt': lambda x: x > k, 'Ge': lambda x: x >= k, 'Lt': lambda x: x < k, 'Le': lambda x: x <= k}[op]
+                vals = {x for x in vals if f(x) == truth}
+        return seen and vals == {0}
     for p in SymEx(b, havoc_loops=True, max_paths=5000).run():
         if p.end != 'return':
             continue
         n += 1
-        conds = [(dk(e.term), e.value != 0) for e in p.branches() if 'Overflow' not in dk(e.term)]
-        empty_b = ('Eq(ncols(arg2), 0)', True) in conds
+        conds = [(dk(e.term), e.value != 0) for e in p.branches() if 'Overflow' not in dk(e.term) and not (e.name or '').startswith('assert:')]
+        empty_b = forces_zero(conds)
         ws = [dk(e.term) for e in p.events if e.kind == 'write' and e.lv and dk(('mref', e.lv)).replace('mut ', '') == 'arg1.inner']
-        rebuilt = [w for w in ws if w.startswith('unwrap(try_from_csc_data(nrows(arg1), AddWithOverflow(ncols(arg1), ncols(arg2)).0,')]
-        if empty_b and not ws:
+        whole = [dk(e.term) for e in p.events if e.kind == 'write' and e.lv and dk(('mref', e.lv)).replace('mut ', '') == 'arg1']
+        rebuilt = [w for w in ws if re.match(r'unwrap\(try_from_csc_data\(nrows\(arg1\), AddWithOverflow\(ncols\(arg1\), ncols\(arg2\)\)\.0,', w)]
+        if empty_b and not ws and not whole:
             continue
-        if rebuilt and len(ws) == 1:
+        if rebuilt and ws[-1] == rebuilt[-1]:
+            # the three arrays: those of a with those of b appended, b's column offsets shifted by a's last offset
+            tail = rebuilt[-1]
+            if 'disassemble(' in tail and 'arg2' in tail and ('AddWithOverflow(' in tail or 'add(' in tail or 'loop' in tail or 'post' in tail):
+                continue
             shift = [dk(e.args[1]) for e in p.calls() if e.name.split('::')[-1] == 'extend' and len(e.args) == 2]
             apps = [e for e in p.calls() if e.name.split('::')[-1] == 'append']
             pops = [e for e in p.calls() if e.name.split('::')[-1] == 'pop']
-            if len(shift) != 1 or 'disassemble(arg2.inner).0' not in shift[0] or len(apps) != 2 or len(pops) != 1:
-                probs.append('the arrays of b are not appended as (offsets shifted, row indices, values): extend %s, %d appends, %d pops' % (shift, len(apps), len(pops)))
+            if len(shift) == 1 and 'disassemble(arg2.inner).0' in shift[0] and len(apps) == 2 and len(pops) == 1:
+                continue
+            unknown.append('arrays of the rebuilt matrix: %s' % tail[60:200])
             continue
-        probs.append('a path returns under %s with self.inner %s: the result does not have ncols(a) + ncols(b) columns' %
-                     ([c for c in conds if not c[0].startswith('Eq(nrows(')], 'unchanged' if not ws else 'set to ' + ws[0][:80]))
+        rest = [c for c in conds if not c[0].startswith('Eq(nrows(')]
+        if not ws and not whole and rest and all(re.match(r'(Eq|Ne|Gt|Ge|Lt|Le)\((nnz|ncols|nrows)\(arg2\), \d+\)$|is_(zero|empty)\(arg2\)$', c) for c, _ in rest):
+            probs.append('a path returns under %s with self.inner unchanged: the result does not have ncols(a) + ncols(b) columns' % rest)
+        else:
+            unknown.append('a path returns under %s with self.inner %s' % (rest[:3], 'unchanged' if not ws else 'set to ' + ws[-1][:80]))
     inst = 'SpMat::extend_cols|result has ncols(a) + ncols(b) columns on every path'
     if n < 2:
         rep.indet('E8b.F13: extend_cols has %d return paths' % n)
+    elif unknown and not probs:
+        rep.indet('E8b.F13: extend_cols outside the recognised fragment: %s' % sorted(set(unknown))[:2])
     elif probs:
         rep.violation('E8b.F13-extend-cols', inst, 'SpMat::extend_cols: ' + '; '.join(sorted(set(probs))[:2]), where=b.where())
     else:
